@@ -95,6 +95,13 @@ CHECKS = {
         "deterministic simulation: differential executions of one seed across fresh interpreters and execution environments",
         "DESIGN.md 4/C09", 900, 7200,
     ),
+    "C19": (
+        "exploration",
+        "Each seeded run applies one defect of the property's enumerated classes to a well-posed scenario (unbalanced constant currents with relative imbalance 1..1e-6; time-dependent currents unbalanced always or on a window of 0.3..1e-6 of the run; epsilon > 1 by 0.5..1e-6, constant and spatial; every inconsistent option SolverOptions.validate names; a terminal polygon strictly inside the film; a seed solution from a device with different film/layer/probes/terminals; vector potentials of the wrong shape; self-intersecting / two-point polygons; duplicate/missing names, probes outside the film or of the wrong shape), with/without an explicit output path, empty/populated directory and a scheduled validator RNG seed. Oracle on the event log: an exception is raised, no file-system event (h5py.File, temporary directory) precedes it, no update ran, the scratch tree is unchanged and no HDF5 object is open.",
+        "Trusted: the file-event seams of the simulator (runner.h5py, runner.tempfile) and the recursive directory listing. Known finding C19-sampling-validator (narrow imbalance windows) is printed, not failed.",
+        "deterministic simulation: defect injection into the problem statement, ordering oracle on the recorded file-system event log",
+        "DESIGN.md 4/C19", 600, 7200,
+    ),
 }
 
 
